@@ -48,6 +48,15 @@ func uvsOrYield(names []string) string {
 		switch n {
 		case "'$'", "T_DOLLAR_OPEN_CURLY_BRACES":
 			if n == "'$'" {
+				// `$$a`, `$$$a`: the same nesting in both languages unless an offset follows (`$$a['x']` is `${$a['x']}` in
+				// PHP 5 and `($$a)['x']` in PHP 7); `${expr}` stays excluded
+				j := i
+				for j < len(names) && names[j] == "'$'" {
+					j++
+				}
+				if j < len(names) && names[j] == "T_VARIABLE" && !(j+1 < len(names) && (names[j+1] == "'['" || names[j+1] == "'{'")) {
+					continue
+				}
 				return "uvs"
 			}
 		case "T_OBJECT_OPERATOR", "T_PAAMAYIM_NEKUDOTAYIM":
